@@ -9,6 +9,7 @@ from ..pyindex import walk_no_nested, access_path, FuncInfo, root_name
 from ..paths import function_paths, walk_event, Ev, node_contains
 from ..cond import term, conjuncts, copy_subst, value
 from ..effects import mutating_nodes
+from .common import expanded
 from .common import (guard_obligation, is_normal_return, resolve_exc, paths_of, event_calls, get_eff, first_param,
                      calls_named)
 
@@ -50,12 +51,12 @@ def add_guards(ctx, col: Collector, rule: str):
     DVE = [EXC + 'DatabaseValidationError']
 
     def row(fname, name, matcher, what, loop_over=None):
-        fi = idx.func(DB, f'Database.{fname}')
+        fi = expanded(ctx, DB, f'Database.{fname}')
         guard_obligation(ctx, col, rule, fi, name, matcher, DVE, protect=mutation_pred(ctx, fi), what=what,
                          require_loop_over=loop_over)
 
     def t():
-        fi = idx.func(DB, 'Database.add_table')
+        fi = expanded(ctx, DB, 'Database.add_table')
         o = first_param(fi)
         row('add_table', 'same-object', exact([('in', o, 'self.tables')]), f'{o} in self.tables')
         row('add_table', 'same-full-name', exact([('in', f'{o}.full_name', 'self.table_dict')]), f'{o}.full_name in self.table_dict')
@@ -80,7 +81,7 @@ def add_guards(ctx, col: Collector, rule: str):
     guarded(col, rule, 'add_table', t)
 
     def e():
-        fi = idx.func(DB, 'Database.add_enum')
+        fi = expanded(ctx, DB, 'Database.add_enum')
         o = first_param(fi)
         row('add_enum', 'same-object', exact([('in', o, 'self.enums')]), f'{o} in self.enums')
 
@@ -93,7 +94,7 @@ def add_guards(ctx, col: Collector, rule: str):
     guarded(col, rule, 'add_enum', e)
 
     def g():
-        fi = idx.func(DB, 'Database.add_table_group')
+        fi = expanded(ctx, DB, 'Database.add_table_group')
         o = first_param(fi)
         row('add_table_group', 'same-object', exact([('in', o, 'self.table_groups')]), f'{o} in self.table_groups')
 
@@ -103,7 +104,7 @@ def add_guards(ctx, col: Collector, rule: str):
     guarded(col, rule, 'add_table_group', g)
 
     def r():
-        fi = idx.func(DB, 'Database.add_reference')
+        fi = expanded(ctx, DB, 'Database.add_reference')
         o = first_param(fi)
         row('add_reference', 'same-reference', exact([('in', o, 'self.refs')]), f'{o} in self.refs')
     guarded(col, rule, 'add_reference', r)
